@@ -379,15 +379,21 @@ const uint8_t* internInput(const uint8_t* data, size_t n)
     static std::map<std::string, uint8_t*>* pool = new std::map<std::string, uint8_t*>();
     std::string key(reinterpret_cast<const char*>(data), n);
     auto it = pool->find(key);
+    bool fresh = false;
     if (it == pool->end())
     {
         uint8_t* b = static_cast<uint8_t*>(malloc(n ? n : 1));
         for (size_t i = 0; i < n; ++i)
             b[i] = data[i];
         it = pool->emplace(std::move(key), b).first;
+        fresh = true;
     }
     const uint8_t* r = it->second;
     --t_inRt;
+    // the block may be memory a finished thread released in its TLS destructors (after it stopped being scheduled, so
+    // nothing forgot its access history): whatever is recorded for these addresses belongs to an earlier life of them
+    if (fresh)
+        forgetRange(const_cast<uint8_t*>(r), n);
     return r;
 }
 
@@ -681,7 +687,16 @@ void atomicOp(const volatile void* addr, int kind, int mo, bool noProgress = fal
     ++t_inRt;
     void* key = const_cast<void*>(addr);
     if (kind != 1 && acquires(mo))
+    {
         acquireFrom(key);
+        // the inline fast path of a function-local static is an ATOMIC acquire load of the guard byte (it arrives here, not
+        // as a plain load, since the atomics carry their memory order): what __cxa_guard_release published is joined too
+        auto gv = g->guardVc.find(key);
+        if (gv != g->guardVc.end())
+            for (int u = 0; u < MAXT; ++u)
+                if (gv->second[static_cast<size_t>(u)] > g->vc[t_tid][u])
+                    g->vc[t_tid][u] = gv->second[static_cast<size_t>(u)];
+    }
     if (kind != 0)
     {
         if (releases(mo))
